@@ -806,24 +806,30 @@ def _w_derived(dw, fn=None):
             return "prompt taken"
         if k == ("val", "<enabled>"):
             return "caller held an enabled-state guard"
+        if k[0] == "val" and re.match(r"^[a-z_][a-z0-9_]*$", k[1]) and ((not pos and 0 in s) or (pos and s and 0 not in s and all(isinstance(v_, int) for v_ in s))) and fn is not None and any(vn == k[1] and not pj and fn.locals[l_]["ty"] == "usize" for vn, l_, pj in fn.var_places) and _counts_delayed_timers(fn, k[1]):
+            return "expired delayed-NAK timers counted"
         if k[0] == "call" and k[1].endswith("VecDeque::is_empty") and any("self.naks" in a for a in k[2]) and pos and s == frozenset([0]):
             return "NAK list non-empty"
         if k[0] == "call" and k[1].endswith("Counter::timeout_occurred") and any("self.timer.nak" in a for a in k[2]) and pos and s == frozenset([1]):
             return "NAK timer expired"
-        if k[0] == "expr" and k[1].startswith("Gt(") and k[1].endswith(", const(0))") and pos and s == frozenset([1]):
-            m = re.match(r"^Gt\((\w+), const\(0\)\)$", k[1])
+        if k[0] == "expr" and k[1].endswith(", const(0))") and pos and ((k[1].startswith(("Gt(", "Ne(")) and s == frozenset([1])) or (k[1].startswith("Eq(") and s == frozenset([0]))):
+            m = re.match(r"^(?:Gt|Ne|Eq)\((\w+), const\(0\)\)$", k[1])
             if any(str(p_).startswith("self.delayed_nack_timers") for p_ in (k[2] if len(k) > 2 else ())) or "self.delayed_nack_timers" in k[1] or (m and _counts_delayed_timers(fn, m.group(1))):
                 return "expired delayed-NAK timers counted"
     return None
 
 
+_DELAYED_COUNT_NAMES = set()
+
+
 def _track_u1(key):
     if key[0] == "val":
-        return key[1] in ("self.config.transmission_mode", "self.prompt", "self.recv_state") or key[1].startswith("prompt.")
+        # (a plain local: `idx != 0` is recorded as a fact on the value of idx)
+        return key[1] in ("self.config.transmission_mode", "self.prompt", "self.recv_state") or key[1].startswith("prompt.") or key[1] in _DELAYED_COUNT_NAMES
     if key[0] == "call":
         return key[1].endswith("VecDeque::is_empty") or key[1].endswith("Counter::timeout_occurred")
     if key[0] == "expr":
-        return key[1].startswith("Gt(") and key[1].endswith(", const(0))") and (re.match(r"^Gt\(\w+, const\(0\)\)$", key[1]) is not None or "self.delayed_nack_timers" in key[1] or any(str(p_).startswith("self.delayed_nack_timers") for p_ in (key[2] if len(key) > 2 else ())))
+        return key[1].startswith(("Gt(", "Ne(", "Eq(")) and key[1].endswith(", const(0))") and (re.match(r"^(Gt|Ne|Eq)\(\w+, const\(0\)\)$", key[1]) is not None or "self.delayed_nack_timers" in key[1] or any(str(p_).startswith("self.delayed_nack_timers") for p_ in (key[2] if len(key) > 2 else ())))
     if key[0] == "dexpr":
         return key[1] == "Option::take(&mut self.prompt)"
     return False
@@ -874,6 +880,12 @@ def _recv_enabling_sites(ctx, fns):
 @rule("C18", "C18-U1", 8, "in unacknowledged mode nothing that makes an ACK, NAK or keep-alive sendable is written (guarded by the mode or, inductively, by already-enabled state)")
 def c18_u1(ctx):
     fns = impl_fns(ctx, RECV)
+    # usize locals computed from the list of delayed checks (`idx`: how many have expired)
+    _DELAYED_COUNT_NAMES.clear()
+    for g in fns:
+        for vn, l_, pj in g.var_places:
+            if not pj and l_ > g.arg_count and g.locals[l_]["ty"] == "usize" and re.match(r"^[a-z_][a-z0-9_]*$", vn) and _counts_delayed_timers(g, vn):
+                _DELAYED_COUNT_NAMES.add(vn)
     it = inter(ctx, RECV, lambda k: _track_u1(k) or k == ("val", "<enabled>"), "u1", carry=_carry_enabled, user_stop=True)
     counts = {}
     for f, b, j, line, what in _recv_enabling_sites(ctx, fns):
@@ -1724,8 +1736,8 @@ def c19_d(ctx):
                 if x in rb:
                     continue
                 for y, _l in f.succs(x):
-                    if y in region and y not in can:
-                        out.add(y)
+                    if y in region and y not in can and any(f.blocks[z]["term"]["k"] == "return" for z in f.reachable(y)):
+                        out.add(y)  # (a way round that ends in `unreachable` / a panic is not a way through resume)
             return can, out
 
         def phase_excluded(w, phases):
